@@ -17,9 +17,9 @@ from typing import Dict, List, Optional, Tuple
 from ..model import AnalysisError, Model
 from ..paths import Path, PathEnumerator, find_calls
 from ..report import Report
-from ..sym import (FALSE, NONE, TRUE, Evaluator, Frame, Term, Unsupported, atoms_of, lin, number, show, subst, sym, t_add, t_and, t_cmp,
+from ..sym import (FALSE, NONE, TRUE, Evaluator, Frame, Term, Unsupported, atoms_of, lin, number, show, subst, subterms, sym, t_add, t_and, t_cmp,
                    t_not, bool_value)
-from .common import call_args, effect_calls, is_call_of, loop_of, share_rule, strip_identity_wrappers
+from .common import call_args, effect_calls, is_call_of, lifted_to_callers, loop_of, share_rule, strip_identity_wrappers
 
 
 def check(model: Model, rep: Report, tier: str):
@@ -207,38 +207,38 @@ def a3(model: Model, rep: Report):
         by_tag = ev.ann_class(f.params[1].annotation, f.module) is T
         construct = f"DeclarativeCircuit.get_acquisition_indices({'tag' if by_tag else 'qubit_index'})"
         ops = ev.attr(s, "operations", Frame(f, f.module, {}, D, 0))
+        n_ret = 0
         for p in [q for q in ps if q.exit == "return"]:
-            lp = loop_of(p)
-            if lp is None:
-                raise AnalysisError(f"{construct}: no loop")
-            rep.check(strip_identity_wrappers(lp.term) == ops, "C07.A3", construct + "[domain]", f.loc, found=show(lp.term), required=show(ops),
+            n_ret += 1
+            res = p.value
+            inner = res
+            if res is not None and res[0] == "call" and isinstance(res[1], tuple) and res[1][0] == "attr" and res[1][2] in ("asarray", "array") and res[2]:
+                inner = res[2][0]
+            # the kept indices as one comprehension: written as such, or as the accumulator loop it abbreviates
+            from ..listflow import as_single_comp
+            comp = as_single_comp(p, inner) if inner is not None else None
+            if comp is None or comp[0] != "comp" or len(comp[3]) != 1:
+                raise AnalysisError(f"{construct}: the result is not a filtered listing ({show(inner) if inner else None})")
+            dom, conds = comp[3][0]
+            rep.check(strip_identity_wrappers(dom) == ops, "C07.A3", construct + "[domain]", f.loc, found=show(dom), required=show(ops),
                       what="the filter does not range over the circuit's whole operation listing in order", detail="domain")
-            elem = ("bound", "for", lp.node.lineno, show(lp.term))
+            bs = subterms(comp, lambda x: x[0] == "bound" and x[3] == show(dom))
+            if len(bs) != 1:
+                raise AnalysisError(f"{construct}: bound variable of the listing not identified")
+            elem = bs[0]
             ident = ("attr", elem, "acquisition_identifier")
             is_acq = ("isinstance", elem, "IAcquisitionOperation")
             if by_tag:
                 match = t_and(t_cmp("==", ("attr", ident, "qubit_index"), ("attr", arg, "qubit_index")), t_cmp("==", ("attr", ident, "tag"), ("attr", arg, "tag")))
             else:
                 match = t_cmp("==", ("attr", ident, "qubit_index"), arg)
-            res = p.value
-            inner = res
-            if res is not None and res[0] == "call" and isinstance(res[1], tuple) and res[1][0] == "attr" and res[1][2] in ("asarray", "array") and res[2]:
-                inner = res[2][0]
-            keep = FALSE
-            bad = []
-            for bp in lp.extra["paths"]:
-                apps = [c for e in bp.events if e.kind == "effect" for c in find_calls(e.term, "append") if c[1][1] == inner]
-                if apps:
-                    if len(apps) != 1 or apps[0][2] != (("attr", elem, "acquisition_index"),):
-                        bad.append(f"appends {[show(a) for a in apps]}")
-                    from ..sym import t_or
-                    keep = t_or(keep, bp.cond)
-                if bp.exit not in ("fall", "continue"):
-                    bad.append(f"loop left by {bp.exit}")
+            keep = t_and(*conds) if conds else TRUE
+            bad = [] if comp[2] == ("attr", elem, "acquisition_index") else [f"collects {show(comp[2])}"]
             eq = equivalent(keep, t_and(is_acq, match), ev.enum_members)
-            rep.check(eq is None and not bad and inner is not None and inner[0] == "var" and inner[3] == ("list", ()), "C07.A3", construct, f.loc,
-                      found=(f"append iff {show(keep)}" + ("; " + "; ".join(bad) if bad else "")), required=f"append(operation.acquisition_index) iff {show(t_and(is_acq, match))}",
+            rep.check(eq is None and not bad, "C07.A3", construct, f.loc,
+                      found=(f"keep iff {show(keep)}" + ("; " + "; ".join(bad) if bad else "")), required=f"operation.acquisition_index for every operation with {show(t_and(is_acq, match))}",
                       what="the filter returns indices of other measurements, or another kind of index", detail="filter")
+        rep.floor(f"return paths of {construct}", n_ret, 1)
 
 
 # ---------------------------------------------------------------------------------------------
@@ -292,13 +292,21 @@ def a5(model: Model, rep: Report, rule: str):
     n = 0
     for name, fs in list(D.methods.items()):
         for f in fs:
-            src = ast.unparse(f.node)
-            if "_structure" not in src:
-                continue
-            writes = [x for x in ast.walk(f.node) if isinstance(x, (ast.Assign, ast.AnnAssign))
-                      and isinstance((x.targets[0] if isinstance(x, ast.Assign) else x.target), ast.Attribute)
-                      and (x.targets[0] if isinstance(x, ast.Assign) else x.target).attr == "_structure"]
-            if not writes:
+            if lifted_to_callers(model, f):
+                continue  # a private helper is run in place where it is called; the pairing is decided there
+            def _binds(fn_node, depth=0):
+                # syntactic pre-filter: binds _structure itself or through a private helper of the class
+                for x in ast.walk(fn_node):
+                    if isinstance(x, (ast.Assign, ast.AnnAssign)):
+                        tg = x.targets[0] if isinstance(x, ast.Assign) else x.target
+                        if isinstance(tg, ast.Attribute) and tg.attr == "_structure":
+                            return True
+                    if depth < 2 and isinstance(x, ast.Call) and isinstance(x.func, ast.Attribute) and x.func.attr.startswith("_") and not x.func.attr.startswith("__"):
+                        for h in D.resolve_all(x.func.attr):
+                            if _binds(h.node, depth + 1):
+                                return True
+                return False
+            if not _binds(f.node):
                 continue
             ev = Evaluator(model, inline_methods=False)
             ps = PathEnumerator(ev).function_paths(f, self_cls=D)
@@ -312,6 +320,7 @@ def a5(model: Model, rep: Report, rule: str):
                 st_struct = [(i, e.term) for i, e in enumerate(p.events) if e.kind == "store" and e.term[2] == "_structure"]
                 st_reg = [(i, e.term) for i, e in enumerate(p.events) if e.kind == "store" and e.term[2] == "_acquisition_registry"]
                 if not st_struct:
+                    n -= 1
                     continue
                 i_s, ts = st_struct[-1]
                 later = [(i, t) for i, t in st_reg if i > i_s]
